@@ -25,8 +25,10 @@ RULE = (
     "every variant with all 16 colour codes and all 4 syncs in a rotating pairing) with seeded random field values; "
     "data_random draws everything with Hypothesis.  voice bursts: 216 vocoder bits around each of the four voice sync "
     "patterns, or around the reference QR(16,7,6) codeword of every (colour code, PI, LCSS) (all 128 enumerated) with 32 "
-    "embedded bits; payloads random / all-zero / all-one.  Distinct by hash of the complete case.  Non-trivial: data bursts "
-    "whose PDU bits are not all zero; voice bursts whose 216 vocoder bits are neither all zero nor all one."
+    "embedded bits; payloads random / all-zero / all-one.  reuse: a case is two such data-burst states (second state: any non-empty subset of {payload, colour code, sync} changed; "
+    "a changed payload is new field values, another variant of the same PDU class or another class / data type) carried "
+    "one after the other by the same Burst object.  Distinct by hash of the complete case.  Non-trivial: data bursts "
+    "whose PDU bits are not all zero; voice bursts whose 216 vocoder bits are neither all zero nor all one; reuse cases whose two states serialise to different bytes."
 )
 ASSUMPTIONS = [
     "burst assembly idiom = the one of TransmissionGenerator (the only assembly API the library has): "
@@ -48,6 +50,10 @@ ASSUMPTIONS = [
     "parsed_payload_fields_equal / reassembled_bytes_identical failures of NACK_Rsp, C_ALOHA and response headers",
     "rate blocks: a burst alone cannot know confirmed/last, the parsed block is .convert()-ed to the generated block type "
     "before fields are compared (the library's own idiom in Transmission)",
+    "reuse, in-place variant: copying the attribute dict of a fresh PDU / SlotType into the old object of the same class "
+    "(obj.__dict__.clear(); obj.__dict__.update(fresh.__dict__)) is indistinguishable from a fresh object for the library's "
+    "plain Python classes (skipped for __slots__ classes and self-referencing objects); no attribute of a PDU is poked "
+    "individually, so derived fields (CRC, parity) are always the ones the library computed for the new state",
     "GPS coordinates are multiples of the wire resolution; other floats cannot survive a 25/24-bit field and are not "
     "'in-range field values'",
 ]
@@ -408,7 +414,7 @@ def drv_reuse(ctx: Ctx, sub: SubCheck):
     _preimport()
     from hypothesis import strategies as st
 
-    k = ctx.pick(6, 40)
+    k = ctx.pick(10, 40)
     items = [(kind, variant, j) for (kind, variant) in G.VARIANTS for j in range(k)]
 
     def work(chunk, t: Tally):
@@ -431,7 +437,7 @@ def drv_reuse(ctx: Ctx, sub: SubCheck):
 
     def hyp(kv, t: Tally):
         kind, variant = kv
-        ctx.hypothesis(sub.name, strat(kind, variant), oracle_reuse, ctx.pick(4, 60), tally=t, shard=f"{kind}/{variant}", record=lambda c, tt: _tally_reuse(sub.name, c, tt))
+        ctx.hypothesis(sub.name, strat(kind, variant), oracle_reuse, ctx.pick(6, 60), tally=t, shard=f"{kind}/{variant}", record=lambda c, tt: _tally_reuse(sub.name, c, tt))
 
     ctx.shards(hyp, list(G.VARIANTS))
 
@@ -539,6 +545,14 @@ def oracle_voice(case):
             raise Fail("voice_burst_bytes_survive_parse_serialise", bytes(ob).hex(), bits.tobytes().hex(), klass=f"{case['center']}:{how}")
         if _ba(b.voice_bits) != voice:
             raise Fail("voice_bits_extracted", _diffpos(_ba(b.voice_bits), voice), "no difference")
+        # scribble-and-repeat: on the returned buffer (same burst), then on the argument (fresh burst from fresh bits)
+        _repeat_after_scribble(b.as_bits, f"voice_burst.as_bits:{how}")
+        if how == "from_bits":
+            arg.invert()
+            st, b2 = call(Burst.from_bits, bits.copy(), BurstTypes.Vocoder)
+            st, out2 = call(b2.as_bits)
+            if _ba(out2) != bits:
+                raise Fail("repeated_call_equal_after_scribbling_on_returned_buffer", _diffpos(_ba(out2), bits), "no difference", klass="from_bits argument")
         if case["center"] == "sync":
             if b.sync_or_embedded_signalling != sp:
                 raise Fail("voice_sync_recognised", str(b.sync_or_embedded_signalling), str(sp))
